@@ -19,6 +19,7 @@ def run(ctx):
     ok, log = ctx.build_props()
     failed = []
     if ok:
+        _ir.nonvacuity(ctx, meta)
         failed = _ir.check_programs(ctx, meta, IMPORTS, 'c01_check', '(fun p => snd (fa_absint 0 false p fa_init))',
                                     'the objective may be evaluated at an infeasible point', 'C01_evaluations_feasible')
     ctx.cov['rule'] = ('theorem for all boxes/objectives/oracles/iteration counts per regenerated program; run monitor: '
